@@ -8,6 +8,7 @@ mod crash;
 mod f3;
 mod failpath;
 mod fsm;
+mod gate;
 mod img;
 mod inflight;
 mod migr;
@@ -42,6 +43,7 @@ fn main() {
         "sweep" => race::run_sweep(&opts),
         "sweepsched" => sweepsched::run(&opts),
         "abuf" => abuf::run(&opts),
+        "gate" => gate::run(&opts),
         "failpath" => failpath::run(&opts),
         "failpathchild" => failpath::child(&opts),
         "scansched" => scansched::run(&opts),
